@@ -420,6 +420,7 @@ func seqProfile(prop string, rng *simrt.Rng, tier string) (*Profile, map[string]
 		k["fsck_every"] = 0
 		k["nshard"] = 257
 		k["readback"] = 1
+		k["nospace"] = 1 // the disks are small on purpose: running out of space is legitimate here
 		disk = uint64(1700 + rng.Intn(1500)) // small, so that blocks are recycled quickly
 	case "C04":
 		p.MinOps, p.MaxOps = 10, 50
